@@ -103,7 +103,7 @@ class NcchCheck(Check):
         m = drv.ask(('ncch-open', file_bytes, start, seed_arg if seed_arg is not None else 'none', int(assume), 0, blob))
         # non-vacuity of the one-image theorem of C04: its decidable geometry hypothesis on this image
         if rd is not None:
-            info_d['sections:' + drv.ask(('ncch-geom', file_bytes, start, seed_arg if seed_arg is not None else 'none', int(assume), 0, blob))] = 1
+            info_d['one-image-hypotheses:' + drv.ask(('ncch-geom', file_bytes, start, seed_arg if seed_arg is not None else 'none', int(assume), 0, blob))] = 1
         # special / ranges are internal: print-only
         import re
         models.append(re.sub(r' special=\S* ', ' ', re.sub(r' ranges=\S* ', ' ', m + ' ')).strip())
